@@ -273,7 +273,7 @@ def generate(tier, seed, path):
     if os.path.isdir(cdir):
         for f in sorted(os.listdir(cdir)):
             cases += vc.read_cases(os.path.join(cdir, f))
-    per_shape = 400 if thorough else 26
+    per_shape = 1200 if thorough else 26
     shapes = [(r, c) for r in range(1, MAX_ROWS + 1) for c in range(1, MAX_COLS + 1)]
     for (r, c) in shapes:
         for k in range(per_shape):
